@@ -350,6 +350,21 @@ def judge_units(d):
                 out.append(viol("C19/scale-covariance:gaussian_smooth", f"sigma={s_px}px lambda={lam}: results differ"))
             if a.min() < -1e-6 or a.max() > 1 + 1e-6 or not np.all(a >= mask - 1e-6) or not np.allclose(a[mask], 1.0, atol=1e-6):
                 out.append(viol("C19/gaussian_smooth-law", f"sigma={s_px}px: values in [{a.min():.3g},{a.max():.3g}], >= mask: {bool(np.all(a >= mask - 1e-6))}, =1 on mask: {bool(np.allclose(a[mask], 1.0))}"))
+            # the same binary mask handed over as a 0/1 array of another dtype (e.g. read from a file) is the same mask
+            mdt = d.get("mask_dtype", "bool")
+            if mdt != "bool":
+                for cname, conv in (("gaussian_smooth", pipe.gaussian_smooth(s_px * scale)), ("dilation", pipe.dilation(1.5 * scale)), ("closing", pipe.closing(1.5 * scale))):
+                    r_bool = np.asarray(conv(mask, scale), dtype=np.float64)
+                    try:
+                        r_other = np.asarray(conv(mask.astype(mdt), scale), dtype=np.float64)
+                    except Exception as e:  # noqa: BLE001
+                        import traceback
+                        if not any("/acryo/" in f.filename for f in traceback.extract_tb(e.__traceback__)):
+                            raise
+                        out.append(viol(f"C19/binary-mask-dtype:{cname}", f"{cname} on the 0/1 mask as {mdt}: {type(e).__name__}: {str(e)[:100]}"))
+                        continue
+                    if r_other.shape != r_bool.shape or not np.allclose(r_other, r_bool, atol=1e-6):
+                        out.append(viol(f"C19/binary-mask-dtype:{cname}", f"{cname} gives a different result for the same 0/1 mask as {mdt} (max diff {np.abs(r_other - r_bool).max():.3g})"))
             so = np.asarray(pipe.soft_otsu(sigma=s_px * scale, radius=d["rpx"] * scale)(blob_image(d["seed"]), scale), dtype=np.float64)
             hard = np.asarray(pipe.threshold_otsu()(blob_image(d["seed"]), scale), bool)
             contains = bool(np.all(so >= hard - 1e-6)) if d["rpx"] >= 0 else True  # a negative radius erodes first
@@ -575,6 +590,7 @@ def unit_cases(draw):
         d["sign"] = draw(st.sampled_from([1, -1]))
         d["touch"] = draw(st.sampled_from([True, True, False]))
     elif kind == "smooth":
+        d["mask_dtype"] = draw(st.sampled_from(["bool", "uint8", "float32"]))
         d["px"] = draw(st.sampled_from([0.6, 1.0, 1.8, 2.5]))
         d["rpx"] = draw(st.sampled_from([0.5, 1.4, 2.3, -1.4]))
     elif kind == "gaussian":
